@@ -128,7 +128,17 @@ def accepted_but_invalid(jp, rec, text, src, lib):
     rec.monitor("recogniser")
     if lib.member(text):
         return "valid"
-    rec.violation(classify(src), {"query": text, "source": src, "compiled_to": str(o[1])})
+    key = classify(src)
+    small = text
+    if rec.viol_counts.get(key, 0) == 0:
+        from ..shrink import shrink_text
+
+        def still(t):
+            o2 = mon.observe(jp.compile, t)
+            return o2[0] == "ok" and not lib.member(t)
+        small = shrink_text(text, still, budget=120)
+        o = mon.observe(jp.compile, small)
+    rec.violation(key, {"query": small, "original_query": text, "source": src, "compiled_to": str(o[1]) if o[0] == "ok" else None})
     return "violation"
 
 
